@@ -1,6 +1,7 @@
 package core
 
 import (
+	"os"
 	"go/constant"
 	"fmt"
 	"go/ast"
@@ -198,8 +199,8 @@ var AnchorNames = map[string]bool{
 
 const (
 	inlineMaxDepth   = 4
-	inlineMaxPerFunc = 8
-	inlineMaxStmts   = 400
+	inlineMaxPerFunc = 24
+	inlineMaxStmts   = 800
 )
 
 // Inlined returns the declaration with same-package calls inlined (memoised).
@@ -629,7 +630,7 @@ func (st *inlineState) closureCallee(call *ast.CallExpr) *FuncDecl {
 		})
 	}
 	cfd := st.closures[v]
-	if cfd == nil || st.closureDefs[v] != 1 || st.stack[cfd.Obj] || st.count[cfd.Obj] >= 2*inlineMaxPerFunc {
+	if cfd == nil || st.closureDefs[v] != 1 || st.stack[cfd.Obj] || st.count[cfd.Obj] >= 4*inlineMaxPerFunc {
 		return nil
 	}
 	sig := cfd.Obj.Type().(*types.Signature)
@@ -700,6 +701,14 @@ func (st *inlineState) substitute(call *ast.CallExpr, cfd *FuncDecl, body *ast.B
 		id, ok := ast.Unparen(arg).(*ast.Ident)
 		if !ok {
 			st.substituteExpr(pv, arg, body, out)
+			return
+		}
+		if _, isNilObj := st.info.Uses[id].(*types.Nil); isNilObj {
+			// a nil argument: the parameter, if never written, is nil
+			if !st.paramWritten(pv, body) {
+				st.replaceUses(reflect.ValueOf(body), pv, id)
+				out[pv] = true
+			}
 			return
 		}
 		cv, ok := st.info.Uses[id].(*types.Var)
@@ -1765,6 +1774,9 @@ func (st *inlineState) normalise(body *ast.BlockStmt) {
 		for _, s := range list {
 			out = append(out, one(s)...)
 		}
+		// once more on the normalised children (parallel assignments are split by now)
+		out = st.foldAddrNil(out)
+		out = st.sinkNilCheck(out)
 		return out
 	}
 	one = func(s ast.Stmt) []ast.Stmt {
@@ -2531,6 +2543,9 @@ func (st *inlineState) sinkNilCheck(list []ast.Stmt) []ast.Stmt {
 			return false
 		}
 		if !leafOK([]ast.Stmt{tree}) {
+			if os.Getenv("GOBLCHECK_DEBUG_SINK") != "" {
+				fmt.Fprintln(os.Stderr, "sinkNilCheck: leaves not ok for", v.Name())
+			}
 			continue
 		}
 		var sink func(l []ast.Stmt) []ast.Stmt
@@ -2599,6 +2614,11 @@ func (st *inlineState) constCond(c ast.Expr) (val, known bool) {
 	case *ast.BinaryExpr:
 		if x.Op == token.EQL || x.Op == token.NEQ {
 			a, b := ast.Unparen(x.X), ast.Unparen(x.Y)
+			if ia, ok := a.(*ast.Ident); ok && ia.Name == "nil" {
+				if ib, ok := b.(*ast.Ident); ok && ib.Name == "nil" {
+					return x.Op == token.EQL, true // nil == nil, after a nil argument was substituted
+				}
+			}
 			if id, isId := a.(*ast.Ident); isId && id.Name == "nil" {
 				a, b = b, a
 			}
